@@ -166,6 +166,7 @@ struct Judged {
     closed_after_unread: u64,
     closed_unannounced: u64,
     drained: u64,
+    self_close_checked: u64,
 }
 
 /// Is this response one after which the connection must end?
@@ -182,7 +183,7 @@ fn closing_kind(r: &RefResp) -> Option<&'static str> {
 }
 
 fn judge(case: &Case, oc: &Outcome) -> Judged {
-    let mut j = Judged { verdicts: vec![], closing_idx: None, closing_kind: "", kept_alive_after_unread: 0, closed_after_unread: 0, closed_unannounced: 0, drained: 0 };
+    let mut j = Judged { verdicts: vec![], closing_idx: None, closing_kind: "", kept_alive_after_unread: 0, closed_after_unread: 0, closed_unannounced: 0, drained: 0, self_close_checked: 0 };
     let n = case.reqs.len();
     let cfgsig = format!("ka={} linger={} half={}", case.cfg.keep_alive_s.is_some(), case.cfg.disc_timeout_ms > 0, case.cfg.half_closed);
     if oc.livelock {
@@ -294,6 +295,30 @@ fn judge(case: &Case, oc: &Outcome) -> Judged {
             break;
         }
     }
+    // (1b) close means close, also when nothing follows: once a closing response has been written
+    // completely, every byte sent has been taken and nothing is left to do, the server must start
+    // closing by itself — it must not sit there waiting for the peer's FIN.  (Not demanded while
+    // it lingers on an unread body, which by design waits for the peer or the disconnect timeout.)
+    if let (Some(ci), false) = (j.closing_idx, case.early_eof) {
+        let n_acts = case.acts.len();
+        let eof_at = n_acts + case.ngates() + 1; // settle: gates, ReleaseHeld, then Eof
+        let finals: Vec<&RefResp> = rp.resps.iter().filter(|r| !r.is_interim()).collect();
+        if let (Some(r), Some(before)) = (finals.get(ci), eof_at.checked_sub(1).and_then(|k| oc.snaps.get(k))) {
+            let sent: usize = case.acts.iter().map(|a| if let Act::Push(d) = a { d.len() } else { 0 }).sum();
+            let lingering = case.cfg.disc_timeout_ms > 0;
+            let last_is_closing = finals.len() == ci + 1 && oc.reqs.len() <= ci + 1;
+            if r.complete && before.out_len >= r.end && before.bytes_read as usize >= sent && !lingering && last_is_closing {
+                j.self_close_checked += 1;
+            }
+            if r.complete && before.out_len >= r.end && before.bytes_read as usize >= sent && !lingering && last_is_closing && !(before.done || before.closed || before.shutdown_calls > 0) {
+                j.verdicts.push(Verdict {
+                    class: "connection-kept-open-after-closing-response",
+                    sig: format!("{} {cfgsig}", j.closing_kind),
+                    detail: format!("response #{ci} ({}) ends the connection and was written completely, all {sent} bytes sent were taken, yet the server had not started closing before the peer's FIN", j.closing_kind),
+                });
+            }
+        }
+    }
     if let Some((at, why)) = rp.malformed_at {
         if j.closing_idx.is_none() {
             j.verdicts.push(Verdict { class: "stream-malformed", sig: why.to_string(), detail: format!("response stream not well-formed at {at} ({why})") });
@@ -349,6 +374,7 @@ fn eval_case(case: &Case, rep: &mut Reporter) {
         eprintln!("wire: {}", esc_short(&oc.out, 1500));
     }
     rep.count("handler_invocations", oc.reqs.len() as u64);
+    rep.count("closing_response_last:server_closed_by_itself_checked", j.self_close_checked);
     rep.count("unread_body_then_next_request_served(drained)", j.kept_alive_after_unread);
     rep.count("unread_body_then_connection_ended", j.closed_after_unread);
     rep.count("unread_body_connection_ended_without_announcement(tolerated)", j.closed_unannounced);
